@@ -26,6 +26,7 @@ pub struct FuzzSession<P: Property> {
     undecodable: u64,
     harness_panics: u64,
     stats_path: String,
+    last_flush: std::time::Instant,
 }
 
 impl<P: Property> FuzzSession<P> {
@@ -36,7 +37,7 @@ impl<P: Property> FuzzSession<P> {
         let dir = std::env::var("VERIF_FUZZ_STATS").unwrap_or_else(|_| format!("{}/harness/fuzz/run/{}/stats", root, id));
         let _ = std::fs::create_dir_all(&dir);
         let stats_path = format!("{}/{}.{}.json", dir, id, std::process::id());
-        FuzzSession { p, strategy, known, stats: Stats::default(), root: root.to_string(), iterations: 0, undecodable: 0, harness_panics: 0, stats_path }
+        FuzzSession { p, strategy, known, stats: Stats::default(), root: root.to_string(), iterations: 0, undecodable: 0, harness_panics: 0, stats_path, last_flush: std::time::Instant::now() }
     }
 
     fn case_of(&self, data: &[u8]) -> Option<P::Case> {
@@ -80,8 +81,9 @@ impl<P: Property> FuzzSession<P> {
             *self.stats.known_hits.entry(h).or_insert(0) += 1;
         }
         self.stats.absorb(&report);
-        if self.iterations % 500 == 0 {
+        if self.iterations % 500 == 0 || self.last_flush.elapsed().as_secs() >= 2 {
             self.flush_stats();
+            self.last_flush = std::time::Instant::now();
         }
         if unknown.is_empty() {
             return None;
